@@ -689,6 +689,9 @@ func (t *tScreen) Fini() {
 
 func (t *tScreen) finish() {
 	close(t.quit)
+	t.Lock()
+	t.fini = true
+	t.Unlock()
 	t.finalize()
 }
 
@@ -2052,6 +2055,9 @@ func (t *tScreen) engage() error {
 	defer t.Unlock()
 	if t.tty == nil {
 		return ErrNoScreen
+	}
+	if t.fini {
+		return errors.New("screen is finished")
 	}
 	t.tty.NotifyResize(func() {
 		select {
